@@ -51,7 +51,7 @@ def sweep_specs(variant=0):
     for i, (code, ver, etm) in enumerate(tlsref.all_combos()):
         hist = [[0, 37, 0], [1, 300, 0], [0, 16, 1], [1, 0, 0], [1, 95, 0], [0, 1, 0]]
         spec = {"kind": "tls", "seed": 1000 * variant + i, "version": ver, "suite": code, "etm": etm, "history": hist,
-                "ep": scenario.default_ep(i % 200, v6=bool((i + variant) % 2))}
+                "ep": scenario.default_ep(i % 200, v6=bool((i + variant) % 2)), "sh13_exts": (i + variant) % 5}
         if variant:
             spec.update(grouping=(variant * 5 + i) % 16, sid_len=[0, 32, 7][(i + variant) % 3], abbreviated=bool((i + variant) % 3 == 0) and ver != tlsref.TLS13,
                         tcp={"mode": ["flight", "cuts", "rec"][(i + variant) % 3], "cuts": [[3 + variant, 70 * variant, 500], [9, 41 * variant]], "mss": 1400,
